@@ -964,6 +964,10 @@ struct VarDriver : DriverBase<VarDriver<Ts...>> {
     static constexpr bool copyable  = (etl::is_copy_constructible_v<Ts> && ...);
     template <size_t I>
     using Alt = etl::variant_alternative_t<I, V>;
+    // with a duplicated alternative type only the index-based interface is usable (as for std::variant)
+    template <typename X>
+    static constexpr int occurrences = (0 + ... + (etl::is_same_v<X, Ts> ? 1 : 0));
+    static constexpr bool uniqueTypes = ((occurrences<Ts> == 1) && ...);
 
     V* obj[3] = {nullptr, nullptr, nullptr};
     VModel model[3];
@@ -1075,14 +1079,18 @@ struct VarDriver : DriverBase<VarDriver<Ts...>> {
         V const& cv       = v;
         using X           = Alt<I>;
         bool const active = m.index == I;
-        if (etl::holds_alternative<X>(cv) != active) {
-            bad("holds_alternative", etl::holds_alternative<X>(cv), active);
-            return;
-        }
         auto* pi  = etl::get_if<I>(&v);
         auto* pci = etl::get_if<I>(&cv);
-        auto* pt  = etl::get_if<X>(&v);
-        auto* pct = etl::get_if<X>(&cv);
+        auto* pt  = pi;
+        auto* pct = pci;
+        if constexpr (uniqueTypes) {
+            if (etl::holds_alternative<X>(cv) != active) {
+                bad("holds_alternative", etl::holds_alternative<X>(cv), active);
+                return;
+            }
+            pt  = etl::get_if<X>(&v);
+            pct = etl::get_if<X>(&cv);
+        }
         if ((pi != nullptr) != active || (pci != nullptr) != active || (pt != nullptr) != active || (pct != nullptr) != active) {
             bad("get_if-null", pi != nullptr, active);
             return;
@@ -1291,6 +1299,8 @@ struct VarDriver : DriverBase<VarDriver<Ts...>> {
                         } else {
                             v.template emplace<I>(alt_make<X>(val));
                         }
+                    } else if constexpr (!uniqueTypes) {
+                        v.template emplace<I>(alt_make<X>(val));
                     } else if (op == "emplace_type") {
                         v.template emplace<X>(alt_make<X>(val));
                     } else {
@@ -1352,7 +1362,7 @@ struct VarDriver : DriverBase<VarDriver<Ts...>> {
         }
         if (op == "assign_own_alternative") {
             // F6: v = get<I>(v), the argument lives inside the variant that is being assigned
-            if constexpr (copyable) {
+            if constexpr (copyable && uniqueTypes) {
                 if (unspec[a]) {
                     skip();
                     return;
@@ -1483,14 +1493,24 @@ struct VarDriver : DriverBase<VarDriver<Ts...>> {
                     break;
                 case 2:
                     with_index<NA>(to, [&](auto ic) {
-                        using X = Alt<decltype(ic)::value>;
-                        made    = new (mem) V(etl::in_place_type<X>, alt_make<X>(val));
+                        constexpr size_t I = decltype(ic)::value;
+                        using X            = Alt<I>;
+                        if constexpr (uniqueTypes) {
+                            made = new (mem) V(etl::in_place_type<X>, alt_make<X>(val));
+                        } else {
+                            made = new (mem) V(etl::in_place_index<I>, alt_make<X>(val));
+                        }
                     });
                     break;
                 case 3:
                     with_index<NA>(to, [&](auto ic) {
-                        using X = Alt<decltype(ic)::value>;
-                        made    = new (mem) V(alt_make<X>(val));
+                        constexpr size_t I = decltype(ic)::value;
+                        using X            = Alt<I>;
+                        if constexpr (uniqueTypes) {
+                            made = new (mem) V(alt_make<X>(val));
+                        } else {
+                            made = new (mem) V(etl::in_place_index<I>, alt_make<X>(val));
+                        }
                     });
                     break;
                 case 4:
@@ -2051,11 +2071,13 @@ void register_ovx_1()
     add<VarDriver<int, char>>("variant<int,char>", false);
     add<VarDriver<int, sim::Tracked>>("variant<int,Tracked>", true);
     add<VarDriver<sim::Tracked, sim::TrackedB, int, etl::monostate>>("variant<Tracked,TrackedB,int,monostate>", true);
+    add<VarDriver<int, sim::Tracked, int>>("variant<int,Tracked,int>", true);
 }
 #elif SIM_PART == 2
 void register_ovx_2()
 {
     add<ExpDriver<int, int>>("expected<int,int>", false);
     add<ExpDriver<sim::Tracked, sim::TrackedB>>("expected<Tracked,TrackedB>", true);
+    add<ExpDriver<sim::Tracked, sim::Tracked>>("expected<Tracked,Tracked>", true);
 }
 #endif
